@@ -31,6 +31,21 @@ try:
             print("evidence of", k, "is older than props.py: slices not covered:", missing); bad += 1
 except ImportError:
     print("(jsonschema not available: run with python3-vt)")
+# every file that some slice includes as `//@include-proved F` (lemma bodies not re-checked there) must be included PLAINLY
+# (bodies checked) by a slice that belongs to a claimed property
+import re
+proved, plain = {}, {}
+for f in glob.glob(os.path.join(root, "slices", "*.vs")):
+    name = os.path.basename(f)[:-3]
+    for l in open(f):
+        m = re.match(r"\s*//@include(-proved)?(-trusted)? (\S+)", l)
+        if m:
+            (proved if m.group(1) else plain).setdefault(m.group(3), set()).add(name)
+registered = set(sl for v in props.PROPS.values() for sl in v["slices"] + v.get("thorough_slices", []))
+for inc, users in proved.items():
+    homes = plain.get(inc, set()) & registered
+    if not homes:
+        print("include-proved", inc, "used by", sorted(users), "has NO registered home slice that proves it"); bad += 1
 r = subprocess.run([sys.executable, os.path.join(here, "stub_sync.py")], capture_output=True, text=True)
 diffs = [l for l in r.stdout.splitlines() if l.startswith("DIFF") and "pipeline_shim" not in l and "slices/swaps.vs" not in l]
 for l in diffs:
